@@ -9,6 +9,7 @@ import (
 	"strings"
 	"sync"
 
+	"github.com/oasisprotocol/oasis-core/go/common/crypto/hash"
 	"github.com/oasisprotocol/oasis-core/go/storage/mkvs/node"
 
 	"verif/harness/internal/ev"
@@ -99,6 +100,11 @@ func nextLetters(e *env, maxCands int, maxVersion uint64) []L {
 }
 
 func stateKey(e *env) string {
+	h := hash.NewFromBytes([]byte(stateKeyLong(e)))
+	return string(h[:])
+}
+
+func stateKeyLong(e *env) string {
 	var sb strings.Builder
 	sb.WriteString(e.dump())
 	m := e.ref
@@ -196,6 +202,9 @@ func runC06(r *ev.Run) {
 			})
 			level++
 			frontier = next
+			if os.Getenv("VERIF_PROGRESS") != "" {
+				fmt.Fprintf(os.Stderr, "%s level %d: frontier %d, states %d, transitions %d\n", backend, level, len(frontier), len(seen), r.Get("transitions"))
+			}
 			if len(seen) > maxStates {
 				capped = true
 				r.Cap(fmt.Sprintf("%s: state cap %d reached at letter depth %d", backend, maxStates, level))
